@@ -630,6 +630,54 @@ func vfC07EndToEnd(run *vfkit.Run, cs vfC07E2E) {
 		}
 		run.Count("e2e_requests_"+cs.Mode, 1)
 	}
+	if cs.Mode != "component" {
+		// a response nobody reads yet (the caller is busy; its context is alive) must not hold up the packets behind it:
+		// a client routes every packet on its own
+		hid := fmt.Sprintf("held-%d", cs.Seed)
+		iq, _ := stanza.NewIQ(stanza.Attrs{Type: "get", Id: hid, To: "server"})
+		iq.Payload = &stanza.Version{}
+		ctx, cancel := context.WithTimeout(context.Background(), 60*time.Second)
+		ch, err := sender.SendIQ(ctx, iq)
+		if err != nil {
+			cancel()
+			run.Violation("C07/e2e:sendiq-error:"+cs.Mode, err.Error(), cs)
+			return
+		}
+		trigger <- hid
+		if vfWaitUntil(10*time.Second, func() bool { return vfRouterBusy(router) }) {
+			after := fmt.Sprintf("after-held-%d", cs.Seed)
+			trigger <- after
+			ok := vfWaitUntil(10*time.Second, func() bool {
+				for _, h := range obs.Handled() {
+					if h == after {
+						return true
+					}
+				}
+				return false
+			})
+			if !ok && ctx.Err() == nil {
+				cancel()
+				run.Violation("C07/e2e:unread-response-stalls-receive-loop:"+cs.Mode, "a response is waiting for its SendIQ caller (context alive, channel not read yet); the packet the server sent after it was not routed within 10s", cs)
+				return
+			}
+			select {
+			case v, ok := <-ch:
+				if !ok || v.Id != hid {
+					cancel()
+					run.Violation("C07/e2e:response-not-on-request-channel:"+cs.Mode, fmt.Sprintf("the held response was not delivered when the caller finally read the channel (got %q, open=%v)", v.Id, ok), cs)
+					return
+				}
+			case <-time.After(10 * time.Second):
+				cancel()
+				run.Violation("C07/e2e:response-not-on-request-channel:"+cs.Mode, "the held response never arrived on the request's channel", cs)
+				return
+			}
+			run.Count("unread_responses_not_blocking", 1)
+		} else {
+			run.Inconclusive("held-response-not-seen-waiting")
+		}
+		cancel()
+	}
 	// the receive path still works (component: recv is not stuck in route)
 	sent := fmt.Sprintf("sentinel-%d", cs.Seed)
 	trigger <- sent
